@@ -88,18 +88,37 @@ impl KeyBuf {
     }
 }
 
-/// a copy of `d` that starts `d.len() % 8` bytes (plus one if that is 0 and d is non-empty) into an 8-aligned buffer
-fn misaligned(d: &[u8]) -> (Vec<u64>, usize) {
-    let off = if d.is_empty() { 0 } else { 1 + d.len() % 7 };
-    let mut v = vec![0u64; (off + d.len() + 7) / 8 + 1];
-    let bytes = unsafe { std::slice::from_raw_parts_mut(v.as_mut_ptr() as *mut u8, v.len() * 8) };
-    bytes[off..off + d.len()].copy_from_slice(d);
-    (v, off)
+/// a copy of `d` placed so that it ENDS exactly at an inaccessible page (PROT_NONE): reading one byte past the slice faults.
+/// The start address is then `page_end - len`, i.e. every alignment occurs as the length varies.
+struct Guarded {
+    base: *mut u8,
+    map_len: usize,
+    off: usize,
 }
 
-fn view(v: &(Vec<u64>, usize), len: usize) -> &[u8] {
-    let bytes = unsafe { std::slice::from_raw_parts(v.0.as_ptr() as *const u8, v.0.len() * 8) };
-    &bytes[v.1..v.1 + len]
+impl Drop for Guarded {
+    fn drop(&mut self) {
+        unsafe { libc::munmap(self.base as *mut libc::c_void, self.map_len) };
+    }
+}
+
+fn misaligned(d: &[u8]) -> Guarded {
+    let page = 4096usize;
+    let data_pages = (d.len() + page - 1) / page + 1;
+    let map_len = (data_pages + 1) * page;
+    unsafe {
+        let base = libc::mmap(std::ptr::null_mut(), map_len, libc::PROT_READ | libc::PROT_WRITE, libc::MAP_PRIVATE | libc::MAP_ANONYMOUS, -1, 0) as *mut u8;
+        assert!(base as isize != -1, "mmap failed");
+        let guard = base.add(data_pages * page);
+        libc::mprotect(guard as *mut libc::c_void, page, libc::PROT_NONE);
+        let off = data_pages * page - d.len();
+        std::ptr::copy_nonoverlapping(d.as_ptr(), base.add(off), d.len());
+        Guarded { base, map_len, off }
+    }
+}
+
+fn view(v: &Guarded, len: usize) -> &[u8] {
+    unsafe { std::slice::from_raw_parts(v.base.add(v.off), len) }
 }
 
 #[derive(Clone)]
